@@ -21,6 +21,7 @@ ORACLES = {
     "C01": ["oracle_c01"],
     "C05": ["oracle_c05"],
     "C07": ["oracle_c07", "c07_"],
+    "C02": ["oracle_c02"],
     "C08": ["oracle_c08", "c08_"],
     "C09": ["oracle_c09"],
     "C11": ["oracle_c11", "c11_"],
